@@ -193,7 +193,7 @@ func (g *Gen) genTx(fam string) *world.TxJSON {
 			args[5] = make([]byte, 300)
 		}
 		if g.R.Intn(300) == 0 {
-			args[5] = make([]byte, []int{16383, 16384, 32767, 32768, 40000}[g.R.Intn(5)]) // one very long field
+			args[5] = make([]byte, []int{16383, 16384, 32767, 32768, 40000, 65535, 65536, 65537, 70000}[g.R.Intn(9)]) // one very long field
 		}
 		extra := uint64(0)
 		for _, a := range args {
@@ -338,7 +338,12 @@ func (g *Gen) genTx(fam string) *world.TxJSON {
 		if g.R.Intn(12) == 0 {
 			args = append(args, []byte{1})
 		}
-		return g.tx(caller, g.anyUser(), spec.FnSetUserName, args, g.gas(g.nodeOf(caller), "SaveUserName", 0), spec.CallDirect)
+		target := g.anyUser()
+		if acc := g.nodeOf(target).Store.Accts[string(target)]; acc != nil && len(acc.UserName) > 0 && g.R.Intn(3) == 0 {
+			// the name the account already has, registered once more
+			args[0] = append([]byte{}, acc.UserName...)
+		}
+		return g.tx(caller, target, spec.FnSetUserName, args, g.gas(g.nodeOf(caller), "SaveUserName", 0), spec.CallDirect)
 	case "forged":
 		// control functions and destination-side forms called by ordinary accounts
 		caller := g.anyAccount()
